@@ -390,6 +390,29 @@ impl<'a> Run<'a> {
                         }
                     }
                 }
+                "cloneinto" => {
+                    // j.clone_from(&i): the destination keeps its allocation and must end up indistinguishable from a clone
+                    let (i, j) = (op["i"].as_i64().unwrap(), op["j"].as_i64().unwrap());
+                    let src = match self.insts.get(&i) {
+                        Some(l) if !l.dead => l.clone(),
+                        _ => continue,
+                    };
+                    if let Some(mut dst) = self.insts.remove(&j) {
+                        let r = catch_unwind(AssertUnwindSafe(|| dst.ind.clone_from_ind(&src.ind)));
+                        match r {
+                            Ok(true) => {
+                                let mut l = src.clone();
+                                std::mem::swap(&mut l.ind, &mut dst.ind);
+                                self.insts.insert(j, l);
+                            }
+                            Ok(false) => {}
+                            Err(_) => {
+                                ctx.stats.panics += 1;
+                                ctx.violate(self.line_no, self.unit, idx, Some(&src), "clone-from-panic", json!({}));
+                            }
+                        }
+                    }
+                }
                 "save" => {
                     let (i, s) = (op["i"].as_i64().unwrap(), op["s"].as_i64().unwrap());
                     if let Some(l) = self.insts.get(&i) {
@@ -1010,6 +1033,12 @@ impl<'a> Run<'a> {
                     let cls = f["cls"].as_str().unwrap_or("none");
                     let (a, b) = (got[k], fresh[k]);
                     let kind = l.cfg.kind.as_str();
+                    // whatever the conditioning, the two runs saw the same window: one finite and the other not is a difference
+                    if a.is_finite() != b.is_finite() {
+                        ctx.stats.fields_compared += 1;
+                        ctx.violate(self.line_no, &unit, idx, Some(&l), "history-differs-from-bare-suffix", json!({"field": f["k"], "whole_history": format!("{}", a), "suffix_only": format!("{}", b), "note": "finite vs non-finite"}));
+                        continue;
+                    }
                     let (err, tol) = if matches!(kind, "MIN" | "MAX" | "FAST_STOCH") || cls == "exact" {
                         (if num_eq(a, b) { 0.0 } else { f64::INFINITY }, 0.0)
                     } else {
